@@ -193,3 +193,14 @@ ssize_t read(int fd, void *buf, size_t n) {
     if (!busy && nfds && is_victim_fd(fd)) point("read", ++count_read);
     return real(fd, buf, n);
 }
+
+__attribute__((destructor)) static void report(void) {
+    const char *log = getenv("VERIF_SCHED_LOG");
+    if (nrules <= 0 || !log || !*log) return;
+    int fd = syscall(SYS_openat, AT_FDCWD, log, O_WRONLY | O_APPEND | O_CREAT, 0644);
+    if (fd < 0) return;
+    char line[128];
+    int n = snprintf(line, sizeof line, "counts,%d,%d,%d,%d\n", count_lstat, count_open, count_fstat, count_read);
+    syscall(SYS_write, fd, line, n);
+    syscall(SYS_close, fd);
+}
